@@ -23,8 +23,16 @@ ITEMS = {
     "C": ["fn  c( ){", "let  x=1;", "let  y = 2 ;", "foo( x,y );", "}"],
     "D": ["const  K:u32=1;"],
     "E": ["fn  e( ){", f"    let  z = {LONG};", "}"],
+    # reorderable runs: imports, an import under an attribute, an extern crate
+    "U": ["use  z::b ;"],
+    "W": ["use  a::c ;"],
+    "V": ["use  y::d ;"],
+    "X": ["extern  crate  q ;"],
 }
-SEQS = [["A", "C", "D"], ["E", "B", "C"], ["C"], ["A", "B", "C", "D"], ["D", "C", "A"], ["B", "A"]]
+# lines written before the item that are not part of its own span (outer attributes)
+PRE = {"V": ["#[cfg(unix)]"]}
+SEQS = [["A", "C", "D"], ["E", "B", "C"], ["C"], ["A", "B", "C", "D"], ["D", "C", "A"], ["B", "A"],
+        ["U", "W", "A"], ["V", "U", "W"], ["W", "V", "D"], ["X", "U", "W"]]
 
 
 def build_source(seq, gap):
@@ -32,6 +40,7 @@ def build_source(seq, gap):
     for k, it in enumerate(seq):
         if k:
             lines += [""] * gap
+        lines += PRE.get(it, [])
         lo = len(lines) + 1
         lines += ITEMS[it]
         spans.append((it, lo, len(lines)))
@@ -58,7 +67,7 @@ def selections(n, rng, tier):
 
 
 def run_one(t):
-    idx, base, rustfmt, src, spans, sel, mode, singles = t
+    idx, base, rustfmt, src, spans, sel, mode, singles, extra = t
     d = base / f"s{idx}"
     d.mkdir()
     (d / "lib.rs").write_text("mod other;\n" + src if mode == "path" else src)
@@ -68,7 +77,8 @@ def run_one(t):
     fname = str((d / "lib.rs").resolve()) if mode == "path" else "stdin"
     js = json.dumps([{"file": fname, "range": [a + shift, b + shift]} for a, b in sel])
     env = core.run_env({"HOME": str(d)})
-    common = ["--unstable-features", "--config", "error_on_line_overflow=true", "--file-lines", js]
+    common = ["--unstable-features", "--config", "error_on_line_overflow=true", "--file-lines", js] \
+        + extra
     if mode == "path":
         r = subprocess.run([rustfmt] + common + ["--emit", "stdout", str(d / "lib.rs")],
                            cwd=d, env=env, capture_output=True, text=True, timeout=60)
@@ -172,7 +182,10 @@ def run(tier, seed, replay=None):
                 sels = selections(n, rng, tier)
                 for k, sel in enumerate(sels):
                     mode = "path" if (k + gap) % 2 == 0 else "stdin"
-                    jobs.append((len(jobs), base, rustfmt, src, spans, sel, mode, singles))
+                    jobs.append((len(jobs), base, rustfmt, src, spans, sel, mode, singles, []))
+                    if any(x in "UWVX" for x in seq) and k % 2 == 0:
+                        jobs.append((len(jobs), base, rustfmt, src, spans, sel, mode, singles,
+                                     ["--config", "group_imports=StdExternalCrate"]))
         if tier == "quick":
             rng.shuffle(jobs)
             jobs = jobs[:420]
@@ -199,8 +212,11 @@ def run(tier, seed, replay=None):
         elif bad:
             g = grecs[idx - na]
             job = jobs[idx - na]
-            v.violation(f"gate:{','.join(bad)}:sel={g['sel']}:seq={[s[0] for s in job[4]]}:"
-                        f"mode={job[6]}:{hash(job[3]) % 1000}",
+            # is an item of a reorderable run (use / extern crate) itself selected?
+            runsel = any(it in "UWVX" and any(a <= hi and lo <= b for (a, b) in g["sel"])
+                         for (it, lo, hi) in job[4])
+            v.violation(f"gate:{','.join(bad)}:runsel={runsel}:sel={g['sel']}:seq={[s[0] for s in job[4]]}:"
+                        f"mode={job[6]}:{core.fnv(job[3].encode()) % 1000}:{'g' if job[8] else ''}",
                         f"{bad} with --file-lines {g['sel']} ({job[6]}): items {g['items']} "
                         f"reports {g['reports']}", {"source": job[3], "sel": g["sel"], "mode": job[6],
                                                     "out": g["out"], "stderr": g["stderr"],
